@@ -563,3 +563,36 @@ func verifHarness_P3_Escapes() {
 	verifAssert(verifWFTape(&pj.ParsedJson, true, false), "the produced tape obeys the documented format")
 	verifCheckRoots(&pj.ParsedJson, roots)
 }
+
+// S6: parseString (the Go wrapper around the two decoder routines) establishes what they need: at least 44 readable
+// bytes beyond any cursor position up to the closing quote (the decoder loads 32-byte windows and looks 12 bytes
+// ahead for surrogate pairs) and 32 bytes of slack behind the copied string; and it writes offset / flag / length.
+func verifHarness_S6_ParseString() {
+	tail := 4 + verifChoice("tail", 80) // bytes from the opening quote to the end of the message
+	slen := verifChoice("slen", 4)      // string body length
+	verifAssume(slen+2 <= tail)
+	msg := nondetBytes("msg", tail)
+	verifAssume(msg[0] == '"' && msg[slen+1] == '"')
+	for i := 1; i <= slen; i++ {
+		verifAssume(msg[i] != '"' && msg[i] != '\\')
+	}
+	l0 := verifChoice("sblen", 42)
+	pj := &ParsedJson{Message: msg, Strings: &TStrings{B: make([]byte, l0, 41)}}
+	for i := range pj.Strings.B {
+		pj.Strings.B[i] = nondetU8("stale.sb")
+	}
+	copyMode := verifChoice("copy", 2) == 1
+	ok := parseString(pj, 0, uint64(verifChoice("maxsize", 2)*(slen+2)), copyMode)
+	verifReach("S6.parseString")
+	verifAssert(ok, "an escape-free, terminated string is accepted")
+	verifAssert(len(pj.Tape) == 2 && pj.Tape[1] == uint64(slen) && byte(pj.Tape[0]>>56) == '"', "tape gets the string entry and its length")
+	off := pj.Tape[0] & JSONVALUEMASK
+	if copyMode {
+		verifAssert(off&STRINGBUFBIT != 0, "copy mode: the entry points into the string buffer")
+		b, err := pj.stringByteAt(off, pj.Tape[1])
+		verifAssert(err == nil && verifBytesEq(b, msg[1:1+slen]), "the copied bytes are the string's bytes")
+		verifAssert(len(pj.Strings.B) == l0+slen, "the string buffer grows by the string's length")
+	} else {
+		verifAssert(off == 1, "no-copy mode: the entry points at the byte after the opening quote")
+	}
+}
